@@ -552,6 +552,73 @@ struct Config
             dump(a);
             if (a != b) dump(b);
         }
+        else if (op == "cmpv")
+        {  // cmpv vA vB: all six operators on vectors + consistency monitors
+            int a = vidx(t[1]), b = vidx(t[2]);
+            const Vector& x = *vec[a].v;
+            const Vector& y = *vec[b].v;
+            const bool eq = x == y, ne = x != y, lt = x < y, le = x <= y, gt = x > y, ge = x >= y, ylx = y < x;
+            out << "cmpv eq=" << eq << " ne=" << ne << " lt=" << lt << " le=" << le << " gt=" << gt << " ge=" << ge << "\n";
+            if (vec[a].oracle_valid && vec[b].oracle_valid && eq != (vec[a].oracle == vec[b].oracle)) violation("C13:vector-equality-differs-from-content");
+            if (ne == eq) violation("C13:vector-ne-is-not-negation");
+            if ((y == x) != eq) violation("C13:vector-equality-not-symmetric");
+            if (gt != ylx || le != !ylx || ge != !lt) violation("C14:vector-operators-inconsistent");
+            if (lt && ylx) violation("C14:vector-lt-not-asymmetric");
+            if (lt && eq) violation("C14:vector-lt-and-eq");
+            if (x < x || !(x == x)) violation("C14:vector-lt-reflexive-or-eq-irreflexive");
+            // vector < is the lexicographical comparison of the element sequences under the element <
+            bool manual = std::lexicographical_compare(x.begin(), x.end(), y.begin(), y.end(), [](auto&& l, auto&& r) { return l < r; });
+            if (manual != lt) violation("C14:vector-lt-is-not-lexicographical-over-element-lt");
+        }
+        else if (op == "cmpe")
+        {  // cmpe vA i vB j
+            int a = vidx(t[1]), b = vidx(t[3]);
+            std::size_t i = std::stoull(t[2]), j = std::stoull(t[4]);
+            Vector& x = *vec[a].v;
+            Vector& y = *vec[b].v;
+            auto ra = x[i];
+            auto rb = y[j];
+            auto ca = std::as_const(x)[i];
+            auto cb = std::as_const(y)[j];
+            Element ea{ca};
+            Element eb{cb};
+            auto six = [](auto&& l, auto&& r) { return std::array<bool, 6>{l == r, l != r, l < r, l <= r, l > r, l >= r}; };
+            const auto base = six(ra, rb);
+            if (six(ca, cb) != base || six(ra, cb) != base || six(ca, rb) != base || six(ea, eb) != base || six(ea, rb) != base ||
+                six(ra, eb) != base || six(ea, cb) != base || six(ca, eb) != base)
+                violation("C14:result-depends-on-operand-kind");
+            out << "cmpe eq=" << base[0] << " ne=" << base[1] << " lt=" << base[2] << " le=" << base[3] << " gt=" << base[4] << " ge=" << base[5] << "\n";
+            const bool ylx = rb < ra;
+            if (vec[a].oracle_valid && vec[b].oracle_valid && base[0] != (vec[a].oracle[i] == vec[b].oracle[j])) violation("C13:element-equality-differs-from-content");
+            if (base[1] == base[0]) violation("C13:element-ne-is-not-negation");
+            if ((rb == ra) != base[0]) violation("C13:element-equality-not-symmetric");
+            if (!(ra == ra) || !(ea == ea)) violation("C13:element-equality-not-reflexive");
+            if (base[4] != ylx || base[3] != !ylx || base[5] != !base[2]) violation("C14:element-operators-inconsistent");
+            if (base[2] && ylx) violation("C14:element-lt-not-asymmetric");
+            if (base[2] && base[0]) violation("C14:element-lt-and-eq");
+            if (ra < ra) violation("C14:element-lt-reflexive");
+        }
+        else if (op == "transe")
+        {  // transe vA i vB j vC k : transitivity of element <
+            Vector& x = *vec[vidx(t[1])].v;
+            Vector& y = *vec[vidx(t[3])].v;
+            Vector& z = *vec[vidx(t[5])].v;
+            auto r1 = x[std::stoull(t[2])];
+            auto r2 = y[std::stoull(t[4])];
+            auto r3 = z[std::stoull(t[6])];
+            const bool ab = r1 < r2, bc = r2 < r3, ac = r1 < r3;
+            out << "transe ab=" << ab << " bc=" << bc << " ac=" << ac << "\n";
+            if (ab && bc && !ac) violation("C14:element-lt-not-transitive");
+        }
+        else if (op == "transv")
+        {
+            const Vector& x = *vec[vidx(t[1])].v;
+            const Vector& y = *vec[vidx(t[2])].v;
+            const Vector& z = *vec[vidx(t[3])].v;
+            const bool ab = x < y, bc = y < z, ac = x < z;
+            out << "transv ab=" << ab << " bc=" << bc << " ac=" << ac << "\n";
+            if (ab && bc && !ac) violation("C14:vector-lt-not-transitive");
+        }
         else if (op == "destroy")
         {
             int k = vidx(t[1]);
@@ -578,6 +645,7 @@ struct Config
             out << "bad-op " << op << "\n";
             return;
         }
+        if (op == "cmpv" || op == "cmpe" || op == "transe" || op == "transv") return;
         out << "ledger +" << (L.n_alloc - allocs_before) << " -" << (L.n_dealloc - deallocs_before) << "\n";
         life_line();
     }
